@@ -118,12 +118,26 @@ fn resolve_foreign_keys(
     foreign_keys_paths: BTreeSet<(Key, KeyPath)>,
 ) -> Result<()> {
     for (locale, value_path) in foreign_keys_paths {
-        let value = values
-            .get_value_at(&locale, &value_path)
-            .unwrap_at("resolve_foreign_keys_1");
+        let value = match values.get_value_at(&locale, &value_path) {
+            Some(value) => value,
+            // the key holding the foreign key may have been merged into a plural (`key_one`, `key_ordinal_other`, ..)
+            None => merged_plural_path(&value_path)
+                .and_then(|path| values.get_value_at(&locale, &path))
+                .unwrap_at("resolve_foreign_keys_1"),
+        };
         value.resolve_foreign_key(values, &locale, default_locale, &value_path)?;
     }
     Ok(())
+}
+
+fn merged_plural_path(path: &KeyPath) -> Option<KeyPath> {
+    let mut path = path.clone();
+    let key = path.pop_key()?;
+    let (base_key, suffix) = key.name.rsplit_once('_')?;
+    plurals::PluralForm::try_from_str(suffix)?;
+    let base_key = base_key.strip_suffix("_ordinal").unwrap_or(base_key);
+    path.push_key(Key::new(base_key)?);
+    Some(path)
 }
 
 fn check_locales(
